@@ -8,11 +8,6 @@ namespace Simpleline
 
 set_option linter.unusedSimpArgs false
 
-/-- instructions that run as soon as they are pushed: they only ever occur at the head of the code -/
-def Instr.immediate : Instr → Bool
-  | .callScr .. | .drawScreen _ | .afterSetup2 _ => true
-  | _ => false
-
 theorem external_not_immediate {i : Instr} (h : i.external = true) : i.immediate = false := by
   cases i <;> simp_all [Instr.external, Instr.immediate]
 
